@@ -10,7 +10,7 @@
 From Coq Require Import List NArith ZArith Arith Bool.
 From Dimod Require Import Gen.Gen_Codec Model.Codec Model.ChkC09 Proofs.CodecBase Proofs.CodecFrame Proofs.CodecBqm Proofs.CodecBqmTop
   Proofs.CodecLabel Proofs.CodecJson Proofs.CodecBqmFull Proofs.CodecQm Proofs.CodecExpr
-  Model.Rebuild Proofs.RebuildFacts Proofs.CodecAdj.
+  Model.Rebuild Proofs.RebuildFacts Proofs.RebuildUpsert Gen.Gen_Loaders Model.Loaders Proofs.CodecAdj.
 Import ListNotations.
 
 Theorem le_decode_encode : forall n x, (x < 256 ^ N.of_nat n)%N -> le_dec (le_enc n x) = x.
@@ -105,26 +105,30 @@ Theorem rebuild_lowers : forall (B : Type) (a : list (list (nat * B))), AdjWF a 
 Proof. intros B a. exact (RebuildFacts.rebuild_lowers a). Qed.
 Print Assumptions rebuild_lowers.
 
-Theorem qm_load_restores_adjacency : forall f (a : list (list (nat * bytes))),
+(* the same for the loader the source actually has: primitive (add_quadratic / add_quadratic_back) and the
+   searchsorted side are read off the code by translators/codec_loaders.py (Gen_Loaders.v); a loader switched to
+   another primitive changes the generated constants and these proofs no longer check *)
+Theorem qm_load_restores_adjacency : forall (add : bytes -> bytes -> bytes) (add0 : bytes -> bytes) f
+  (a : list (list (nat * bytes))),
   QmWF f -> AdjWF a -> qf_neig f = map nb_N (lowers a) ->
-  exists g, run qm_decode (qm_encode f) = Ok g /\ rebuild (map nb_nat (qf_neig g)) = a.
+  exists g, run qm_decode (qm_encode f) = Ok g /\ qm_load_adjacency add add0 (map nb_nat (qf_neig g)) = a.
 Proof. exact CodecAdj.qm_load_restores_adjacency. Qed.
 Print Assumptions qm_load_restores_adjacency.
 
-(* BQM: stated for the add_quadratic_back replay; the loader calls add_quadratic (lower_bound + insert + `+=`), which
-   appends when all existing keys are smaller (upsert_at_end) - the induction showing that this precondition holds at
-   every call of a load is NOT done (PARTIAL); the executable upsert replay is compared with the observed adjacency
-   in the correspondence check instead *)
-Theorem bqm_load_restores_adjacency_partial : forall f (a : list (list (nat * bytes))),
-  BqmWFL f -> AdjWF a -> bf_adj f = map nb_N a ->
-  exists g, run bqm_decode (bqm_encode f) = Ok g /\ rebuild (lowers (map nb_nat (bf_adj g))) = a.
-Proof. exact CodecAdj.bqm_load_restores_adjacency. Qed.
-Print Assumptions bqm_load_restores_adjacency_partial.
+(* BQM: the loader calls add_quadratic (lower_bound + insert-if-absent + `+=`); on the call sequence of a load every
+   call finds only smaller keys in both neighbourhoods it touches, so every upsert is an append (proved by induction
+   over the calls, any number of variables).  `0 + bias = bias` is the only arithmetic fact used. *)
+Theorem rebuild_upsert_lowers : forall (B : Type) (add : B -> B -> B) (a : list (list (nat * B))),
+  AdjWF a -> NoSelf a -> rebuild_upsert add (fun b => b) (lowers a) = a.
+Proof. intros B add a W NS. exact (RebuildUpsert.rebuild_upsert_lowers add a W NS). Qed.
+Print Assumptions rebuild_upsert_lowers.
 
-Theorem upsert_at_end : forall (B : Type) (add : B -> B -> B) (add0 : B -> B) k b (l : list (nat * B)),
-  Forall (fun e => fst e < k) l -> upsert add add0 k b l = l ++ [(k, add0 b)].
-Proof. intros B. exact (@CodecAdj.upsert_at_end B). Qed.
-Print Assumptions upsert_at_end.
+Theorem bqm_load_restores_adjacency : forall (add : bytes -> bytes -> bytes) f (a : list (list (nat * bytes))),
+  BqmWFL f -> AdjWF a -> NoSelf a -> bf_adj f = map nb_N a ->
+  exists g, run bqm_decode (bqm_encode f) = Ok g
+            /\ bqm_load_adjacency add (fun b => b) (map nb_nat (bf_adj g)) = a.
+Proof. exact CodecAdj.bqm_load_restores_adjacency. Qed.
+Print Assumptions bqm_load_restores_adjacency.
 
 (* hypotheses are satisfiable on non-trivial data: the implementation's own bytes of
    BQM({'a':1.5,'b':-2,('t',1):.25},{('a','b'):3},.5,'SPIN') *)
